@@ -1,5 +1,47 @@
 import Ptn.C09.Model
-/-! Line-protocol handler for the C09 model (core Lean only). -/
+/-! Line-protocol handler for C09 (core Lean only).
+
+  order <id:parent> …   (root has parent `-`; children of a node are taken in order of appearance)
+      → `<updates, space separated> | <moves p>c …>`
+-/
 namespace Ptn.C09
-def handle (args : List String) : String := "bad-op"
+
+def parseEntry (s : String) : Option (Nat × Option Nat) :=
+  match s.splitOn ":" with
+  | [a, b] =>
+    match a.toNat? with
+    | none => none
+    | some x => if b = "-" then some (x, none) else (b.toNat?).map fun p => (x, some p)
+  | _ => none
+
+mutual
+def buildTree (fuel : Nat) (entries : List (Nat × Option Nat)) (id : Nat) : Tree :=
+  match fuel with
+  | 0 => .node id .nil
+  | fuel + 1 =>
+    .node id (buildForest fuel entries ((entries.filter (·.2 == some id)).map (·.1)))
+def buildForest (fuel : Nat) (entries : List (Nat × Option Nat)) (ids : List Nat) : Forest :=
+  match fuel with
+  | 0 => .nil
+  | fuel + 1 =>
+    match ids with
+    | [] => .nil
+    | i :: rest => .cons (buildTree fuel entries i) (buildForest fuel entries rest)
+end
+
+def handle (args : List String) : String :=
+  match args with
+  | "order" :: toks =>
+    match toks.mapM parseEntry with
+    | none => "bad-op"
+    | some entries =>
+      match entries.filter (·.2 == none) with
+      | [(r, _)] =>
+        let t := buildTree (2 * entries.length + 2) entries r
+        if t.ids.length ≠ entries.length then "bad-op" else
+        " ".intercalate (t.updates.map toString) ++ " | " ++
+          " ".intercalate (t.moves.map fun m => s!"{m.1}>{m.2}")
+      | _ => "bad-op"
+  | _ => "bad-op"
+
 end Ptn.C09
